@@ -239,7 +239,23 @@ func runReuseCase(prop, tier string, seed int64, k, idx int) proto.Rec {
 		// judged as a hang by C01's generic cases; here only when outcomes are missing although everything was quiet
 		rec.Verdict, rec.Why = "inconclusive", "not every submission had its outcome after 20 s"
 	}
-	if idem {
+	// a failed message (possible only through time-outs of a loaded machine: the refusals stay inside the
+	// retry budget) bumps the epoch, after which the pinned tree is known to deviate (open C05 findings):
+	// the sequence and log oracles are for runs in which every submission succeeded
+	anyErr := false
+	mu.Lock()
+	for _, os := range outcomes {
+		for _, o := range os {
+			if o.err != nil {
+				anyErr = true
+			}
+		}
+	}
+	mu.Unlock()
+	if anyErr {
+		rec.Obs["runs_with_a_failed_message(sequence_and_log_oracles_skipped)"]++
+	}
+	if idem && !anyErr {
 		// within one epoch every batch continues the sequence of the previous distinct batch; a batch
 		// that starts below the expected number must be the exact resend of one seen before
 		type rng2 struct{ first, n int32 }
@@ -280,6 +296,9 @@ func runReuseCase(prop, tier string, seed int64, k, idx int) proto.Rec {
 			add("double-outcome", ctx, fmt.Sprintf("submission %d got %d outcomes", id, len(os)))
 		}
 		if len(os) == 0 {
+			continue
+		}
+		if anyErr {
 			continue
 		}
 		if os[0].err == nil && inLog[id] != 1 {
